@@ -91,6 +91,7 @@ class Seam:
         self.time_steps = 0
         self.installed = False
         self.current = None       # name of the actor being activated
+        self.current_target = None
         self.verdict = None
 
     # -- names -------------------------------------------------------------------------
@@ -121,11 +122,12 @@ class Seam:
         seam = self
 
         def _run_coroutine(loop, target, signal=None):
+            outer = (seam.current, seam.current_target)     # a nested run() inside an activation
             seam._on_activation(loop, target, signal)
             try:
                 return orig_run(loop, target, signal)
             finally:
-                seam.current = None
+                seam.current, seam.current_target = outer
                 for mon in seam.post_monitors:
                     mon(seam, loop, target, signal)
 
@@ -240,6 +242,7 @@ class Seam:
         self.n_act += 1
         now = loop.time
         name = self.current = self.name_of(target)
+        self.current_target = target
         if self.acts is not None:
             self.acts.append((self.tick, now, name, _sigkind(signal)))
         # step caps
